@@ -139,7 +139,7 @@ def run(ctx):
                     if any(abs(g - e) > 1e-4 * max(abs(e), 1e-300) + 1e-12 for g, e in zip(vals, out)):
                         ctx.violation('c17-forward-vs-model', f'forward value {out} vs unrolled circuit {vals}', replay=rep, found_input=False)
                         break
-        if ctx.n_new() >= 3:
+        if ctx.n_new(with_input_only=True) >= 3:
             break
     if model_mismatch and not any(v['found_input'] for v in ctx.violations):
         # failing-input search: the property's own statement on the implementation, over every configuration (not only this run's sample)
